@@ -48,22 +48,23 @@ def posOf (descs : List FieldDesc) (id : Int) : Nat :=
   | none => 0
 
 /-- decoding the value part of a field: `z` is the target's current value, `w` the result. Enum-tagged integer fields
-are read with `rI32` whatever their kind, all other fields by `decode` (fuel: body length + `B`). -/
-def ValStep (p : Proto) (strict : Bool) (d : FieldDesc) (body : Bytes) (B : Nat) (z w : Val) : Prop :=
-  (∀ k, d.enum = true → baseOf d.ty = .int k →
-    ∃ i, (∀ rest, rI32 p (body ++ rest) = .ok (i, rest)) ∧ wrapPtr d.ty (.int (wrapTo k.bits i)) = w) ∧
-  (¬ (d.enum = true ∧ ∃ k, baseOf d.ty = .int k) →
-    ∀ fuel rest, body.length + B ≤ fuel → decode p strict fuel d.ty (body ++ rest) z = .ok (w, rest))
+are read with `rI32` whatever their kind, all other fields by `decode` (fuel: body length + `B`) at the nesting depth `d`
+of the struct's fields (= the struct's own depth + 1). -/
+def ValStep (p : Proto) (strict : Bool) (d : Nat) (fd : FieldDesc) (body : Bytes) (B : Nat) (z w : Val) : Prop :=
+  (∀ k, fd.enum = true → baseOf fd.ty = .int k →
+    ∃ i, (∀ rest, rI32 p (body ++ rest) = .ok (i, rest)) ∧ wrapPtr fd.ty (.int (wrapTo k.bits i)) = w) ∧
+  (¬ (fd.enum = true ∧ ∃ k, baseOf fd.ty = .int k) →
+    ∀ fuel rest, body.length + B ≤ fuel → decode p strict d fuel fd.ty (body ++ rest) z = .ok (w, rest))
 
 /-- what the struct loop needs from one emitted record: a declared id in 1 … 32767, the declared wire type, and the
 value step from the initial value `Z[pos]` to the target value `T[pos]` -/
-def DecRec (p : Proto) (strict : Bool) (descs : List FieldDesc) (Z T : Vals) (B : Nat) (f : FieldRec) : Prop :=
+def DecRec (p : Proto) (strict : Bool) (d : Nat) (descs : List FieldDesc) (Z T : Vals) (B : Nat) (f : FieldRec) : Prop :=
   1 ≤ f.id ∧ f.id ≤ 32767 ∧ isReal f.t = true ∧ f.t ≠ .true_ ∧
-  ∃ d, findById descs f.id = some d ∧ typeOf d.ty = f.t ∧ d.pos < T.length ∧
-    (f.t = .bool → wrapPtr d.ty (.bool f.isTrue) = Vals.get T d.pos) ∧
-    ValStep p strict d f.body B (Vals.get Z d.pos) (Vals.get T d.pos)
+  ∃ fd, findById descs f.id = some fd ∧ typeOf fd.ty = f.t ∧ fd.pos < T.length ∧
+    (f.t = .bool → wrapPtr fd.ty (.bool f.isTrue) = Vals.get T fd.pos) ∧
+    ValStep p strict d fd f.body B (Vals.get Z fd.pos) (Vals.get T fd.pos)
 
-theorem wField_length_pos (p : Proto) (t : TType) (id : Int) : 1 ≤ (wField p t id).length := by
+theorem wField_length_pos (p : Proto) (t : TType) (id : Int) (dl : Bool) : 1 ≤ (wField p t id dl).length := by
   cases p <;> simp only [wField]
   · simp
   · split
@@ -73,17 +74,17 @@ theorem wField_length_pos (p : Proto) (t : TType) (id : Int) : 1 ≤ (wField p t
 theorem wStopField_length_pos (p : Proto) : 1 ≤ (wStopField p).length := by
   cases p <;> simp [wStopField]
 
-theorem decodeStruct_stop (p : Proto) (strict : Bool) (fuel : Nat) (descs : List FieldDesc) (rest : Bytes)
+theorem decodeStruct_stop (p : Proto) (strict : Bool) (d fuel : Nat) (descs : List FieldDesc) (rest : Bytes)
     (vs : Vals) (last : Int) (num : Nat) (seen : List Int) (hf : 1 ≤ fuel) :
-    decodeStruct p strict fuel descs (wStopField p ++ rest) vs last num seen = .ok ((vs, seen), rest) := by
+    decodeStruct p strict d fuel descs (wStopField p ++ rest) vs last num seen = .ok ((vs, seen), rest) := by
   obtain ⟨f, rfl⟩ : ∃ f, fuel = f + 1 := ⟨fuel - 1, by omega⟩
   cases p with
   | compact =>
-    have : wStopField .compact = wField .compact .stop 0 := rfl
+    have : wStopField .compact = wField .compact .stop 0 false := rfl
     rw [decodeStruct, this, rField_wField_compact_stop]
     simp
   | binary s =>
-    rw [decodeStruct, wStopField_binary, rField_wField_binary s .stop 0 (Or.inr rfl) (by decide)]
+    rw [decodeStruct, wStopField_binary s false, rField_wField_binary s .stop 0 false (Or.inr rfl) (by decide)]
     simp
 
 /-- evaluates the value part of one declared field inside an unfolded `decodeStruct` -/
@@ -101,28 +102,28 @@ local macro "val_step" d:ident hval:ident hf:ident : tactic => `(tactic|
      rw [hv2 (fun ⟨h, _⟩ => he h) _ _ $hf]; simp only [dontExpectEOF_ok, Res.bind]))
 
 /-- one declared record, any protocol: the loop stores the decoded value and continues after the record -/
-theorem decodeStruct_declared (p : Proto) (strict : Bool) (descs : List FieldDesc) (Z T : Vals) (B : Nat)
-    (f : FieldRec) (r : List FieldRec) (hd : DecRec p strict descs Z T B f)
+theorem decodeStruct_declared (p : Proto) (strict : Bool) (d : Nat) (descs : List FieldDesc) (Z T : Vals) (B : Nat)
+    (f : FieldRec) (r : List FieldRec) (hd : DecRec p strict d descs Z T B f)
     (last : Int) (hl : 0 ≤ last) (hlt : last < f.id) (fuel : Nat)
     (hf' : ¬ (p.coalesce = true ∧ f.t = .bool) → f.body.length + B ≤ fuel)
     (vs : Vals) (hz : Vals.get vs (posOf descs f.id) = Vals.get Z (posOf descs f.id))
     (num : Nat) (seen : List Int) (rest : Bytes) :
-    decodeStruct p strict (fuel + 1) descs (emitFields p (f :: r) last ++ rest) vs last num seen
-      = decodeStruct p strict fuel descs (emitFields p r f.id ++ rest)
+    decodeStruct p strict d (fuel + 1) descs (emitFields p (f :: r) last ++ rest) vs last num seen
+      = decodeStruct p strict d fuel descs (emitFields p r f.id ++ rest)
           (Vals.set vs (posOf descs f.id) (Vals.get T (posOf descs f.id))) f.id (num + 1) (f.id :: seen) := by
-  obtain ⟨h1, h2, hr, hnt, d, hfind, hty, _, hbool, hval⟩ := hd
-  have hpos : posOf descs f.id = d.pos := by simp [posOf, hfind]
+  obtain ⟨h1, h2, hr, hnt, fd, hfind, hty, _, hbool, hval⟩ := hd
+  have hpos : posOf descs f.id = fd.pos := by simp [posOf, hfind]
   rw [hpos] at hz ⊢
   cases p with
   | binary s =>
     have hf := hf' (by simp [Proto.coalesce])
     simp only [emitFields, Proto.delta, Proto.coalesce, Bool.false_and, Bool.false_eq_true, if_false,
       List.append_assoc]
-    rw [decodeStruct, rField_wField_binary s f.t f.id (Or.inl hr) (by omega)]
+    rw [decodeStruct, rField_wField_binary s f.t f.id _ (Or.inl hr) (by omega)]
     simp only [ne_stop_of_real f.t hr, Bool.false_eq_true, if_false, Proto.coalesce, Bool.false_and,
       wrap16_id f.id ⟨h1, h2⟩, hfind, hty, bne_self_eq_false, Bool.false_and]
     rw [hz]
-    val_step d hval hf
+    val_step fd hval hf
   | compact =>
     simp only [emitFields, Proto.delta, Proto.coalesce, Bool.true_and, decide_eq_true_eq, List.append_assoc]
     by_cases hb : f.t = .bool
@@ -153,7 +154,7 @@ theorem decodeStruct_declared (p : Proto) (strict : Bool) (descs : List FieldDes
       simp only [hty', ne_stop_of_real f.t hr, Bool.false_eq_true, if_false, hid, wrap16_id f.id ⟨h1, h2⟩, hfind,
         hty, bne_self_eq_false, Bool.false_and, Proto.coalesce, Bool.true_and, hco]
       rw [hz]
-      val_step d hval hf
+      val_step fd hval hf
 
 theorem emitFields_cons_length (p : Proto) (f : FieldRec) (r : List FieldRec) (last : Int) :
     1 + (emitFields p r f.id).length ≤ (emitFields p (f :: r) last).length ∧
@@ -161,7 +162,7 @@ theorem emitFields_cons_length (p : Proto) (f : FieldRec) (r : List FieldRec) (l
       1 + f.body.length + (emitFields p r f.id).length ≤ (emitFields p (f :: r) last).length) := by
   obtain ⟨W, hW, e⟩ : ∃ W : Bytes, 1 ≤ W.length ∧ emitFields p (f :: r) last =
       W ++ (if (p.coalesce && f.t == TType.bool) = true then [] else f.body) ++ emitFields p r f.id :=
-    ⟨_, wField_length_pos p _ _, rfl⟩
+    ⟨_, wField_length_pos p _ _ _, rfl⟩
   rw [e]
   simp only [List.length_append]
   constructor
@@ -178,23 +179,23 @@ theorem emitFields_cons_length (p : Proto) (f : FieldRec) (r : List FieldRec) (l
 
 /-- **the struct loop over declared records.** `Z` = the target's initial field values, `T` = the final ones;
 `cur` already agrees with `T` outside the positions of the remaining records and still has the initial values there. -/
-theorem decodeStruct_loop (p : Proto) (strict : Bool) (descs : List FieldDesc) (Z T : Vals) (B : Nat) :
+theorem decodeStruct_loop (p : Proto) (strict : Bool) (d : Nat) (descs : List FieldDesc) (Z T : Vals) (B : Nat) :
     ∀ (l : List FieldRec) (last : Int) (num fuel : Nat) (cur : Vals) (seen : List Int) (rest : Bytes),
       0 ≤ last → (∀ f ∈ l, last < f.id) → l.Pairwise (fun a b => a.id < b.id) →
-      (∀ f ∈ l, DecRec p strict descs Z T B f) →
+      (∀ f ∈ l, DecRec p strict d descs Z T B f) →
       l.Pairwise (fun a b => posOf descs a.id ≠ posOf descs b.id) →
       cur.length = T.length →
       (∀ f ∈ l, Vals.get cur (posOf descs f.id) = Vals.get Z (posOf descs f.id)) →
       (∀ n, (∀ f ∈ l, posOf descs f.id ≠ n) → Vals.get cur n = Vals.get T n) →
       (emitFields p l last).length + 1 + B ≤ fuel →
-      decodeStruct p strict fuel descs (emitFields p l last ++ (wStopField p ++ rest)) cur last num seen
+      decodeStruct p strict d fuel descs (emitFields p l last ++ (wStopField p ++ rest)) cur last num seen
         = .ok ((T, (l.map (·.id)).reverse ++ seen), rest) := by
   intro l
   induction l with
   | nil =>
     intro last num fuel cur seen rest _ _ _ _ _ hlen _ hT hf
     simp only [emitFields, List.nil_append, List.map_nil, List.reverse_nil]
-    rw [decodeStruct_stop p strict fuel descs rest cur last num seen (by omega)]
+    rw [decodeStruct_stop p strict d fuel descs rest cur last num seen (by omega)]
     rw [ext_get cur T hlen (fun n => hT n (fun _ h => by cases h))]
   | cons f r ih =>
     intro last num fuel cur seen rest hl hlast hpw hd hpp hlen hZ hT hf
@@ -204,11 +205,11 @@ theorem decodeStruct_loop (p : Proto) (strict : Bool) (descs : List FieldDesc) (
     obtain ⟨fu, rfl⟩ : ∃ fu, fuel = fu + 1 := ⟨fuel - 1, by omega⟩
     obtain ⟨hl1, hl2⟩ := emitFields_cons_length p f r last
     have hpos : posOf descs f.id < T.length := by
-      obtain ⟨_, _, _, _, d, hfind, _, hp, _⟩ := hdf
+      obtain ⟨_, _, _, _, fd, hfind, _, hp, _⟩ := hdf
       simpa [posOf, hfind] using hp
     · have hfu : ¬ (p.coalesce = true ∧ f.t = .bool) → f.body.length + B ≤ fu := by
         intro hco; have := hl2 hco; omega
-      rw [decodeStruct_declared p strict descs Z T B f r hdf last hl hlt fu hfu cur (hZ f (List.mem_cons_self ..))]
+      rw [decodeStruct_declared p strict d descs Z T B f r hdf last hl hlt fu hfu cur (hZ f (List.mem_cons_self ..))]
       rw [ih f.id (num + 1) fu _ (f.id :: seen) rest (by omega) hpw.1 hpw.2
         (fun g hg => hd g (List.mem_cons_of_mem _ hg)) hpp.2 (by rw [length_set]; exact hlen)
         (fun g hg => by
